@@ -336,7 +336,8 @@ pub mod unit {
         @*/
         /*@fn radix-engine/src/system/system_substates.rs :: impl<V> FieldSubstate<V> :: fn lock
         @sig
-            ensures final(self).locked(), final(self).pl() == old(self).pl()
+            ensures final(self).locked(), final(self).pl() == old(self).pl(),
+                    old(self).locked() ==> *final(self) == *old(self),      // locking a locked field is the identity
         @*/
         /*@fn radix-engine/src/system/system_substates.rs :: impl<V> FieldSubstate<V> :: fn payload
         @sig
@@ -359,7 +360,8 @@ pub mod unit {
     impl<V> KeyValueEntrySubstate<V> {
         /*@fn radix-engine/src/system/system_substates.rs :: impl<V> KeyValueEntrySubstate<V> :: fn lock
         @sig
-            ensures final(self).locked(), final(self).val() == old(self).val()
+            ensures final(self).locked(), final(self).val() == old(self).val(),
+                    old(self).locked() ==> *final(self) == *old(self),
         @*/
         /*@fn radix-engine/src/system/system_substates.rs :: impl<V> KeyValueEntrySubstate<V> :: fn into_value
         @sig
@@ -383,7 +385,8 @@ pub mod unit {
         @*/
         /*@fn radix-engine/src/system/system_substates.rs :: impl<V> KeyValueEntrySubstate<V> :: fn remove
         @sig
-            ensures ret == old(self).val(), final(self).val() == None::<V>, final(self).st() == old(self).st()
+            ensures ret == old(self).val(), final(self).val() == None::<V>, final(self).st() == old(self).st(),
+                    old(self).locked() ==> final(self).locked(),            // never unlocks (but DOES drop the value: callers must guard)
         @*/
         /*@fn radix-engine/src/system/system_substates.rs :: impl<V> KeyValueEntrySubstate<V> :: fn lock_status
         @sig
@@ -792,6 +795,91 @@ pub mod unit {
                 *final(final(self).api) == *final(old(self).api),
         @*/
     }
+
+    // ==========================================================================================
+    // (a') No operation of the wrapper types turns Locked into Unlocked.
+    // The only `&mut self` methods are lock() and remove(); their contracts above say `old.locked() ==> final.locked()`.
+    // Every other method takes `self`/`&self` (cannot change a stored wrapper) or is a constructor. As a step relation:
+    // ==========================================================================================
+    pub enum FieldOp { Lock }
+    pub enum KvOp { Lock, Remove }
+    pub open spec fn field_step<V>(a: FieldSubstate<V>, op: FieldOp, b: FieldSubstate<V>) -> bool {
+        match op { FieldOp::Lock => b.locked() && b.pl() == a.pl() }          // = ensures of FieldSubstate::lock
+    }
+    pub open spec fn kv_step<V>(a: KeyValueEntrySubstate<V>, op: KvOp, b: KeyValueEntrySubstate<V>) -> bool {
+        match op {
+            KvOp::Lock => b.locked() && b.val() == a.val(),                    // = ensures of KeyValueEntrySubstate::lock
+            KvOp::Remove => b.val() is None && b.st() == a.st(),               // = ensures of KeyValueEntrySubstate::remove
+        }
+    }
+    pub open spec fn field_run<V>(t: Seq<FieldSubstate<V>>, ops: Seq<FieldOp>) -> bool {
+        t.len() == ops.len() + 1 && forall|i: int| 0 <= i < ops.len() ==> field_step(t[i], #[trigger] ops[i], t[i + 1])
+    }
+    pub open spec fn kv_run<V>(t: Seq<KeyValueEntrySubstate<V>>, ops: Seq<KvOp>) -> bool {
+        t.len() == ops.len() + 1 && forall|i: int| 0 <= i < ops.len() ==> kv_step(t[i], #[trigger] ops[i], t[i + 1])
+    }
+    /// any history of wrapper operations: once Locked, Locked at every later point
+    pub proof fn lemma_field_wrapper_never_unlocks<V>(t: Seq<FieldSubstate<V>>, ops: Seq<FieldOp>, i: int, j: int)
+        requires field_run(t, ops), 0 <= i <= j < t.len(), t[i].locked()
+        ensures t[j].locked(), t[j].pl() == t[i].pl()
+        decreases j - i
+    {
+        if i < j { lemma_field_wrapper_never_unlocks(t, ops, i, j - 1); assert(field_step(t[j - 1], ops[j - 1], t[j])); }
+    }
+    pub proof fn lemma_kv_wrapper_never_unlocks<V>(t: Seq<KeyValueEntrySubstate<V>>, ops: Seq<KvOp>, i: int, j: int)
+        requires kv_run(t, ops), 0 <= i <= j < t.len(), t[i].locked()
+        ensures t[j].locked()
+        decreases j - i
+    {
+        if i < j { lemma_kv_wrapper_never_unlocks(t, ops, i, j - 1); assert(kv_step(t[j - 1], ops[j - 1], t[j])); }
+    }
+
+    // ==========================================================================================
+    // HISTORY LEMMA (C51): `heap_monotone` is what every contracted function of SystemService ensures between its
+    // pre- and post-state; it is reflexive and transitive, hence holds across ANY sequence of such calls, and it
+    // means: a substate that is locked at some point is, at every later point, present, locked, with the same content.
+    // ==========================================================================================
+    pub proof fn lemma_monotone_refl(h: Map<SubstateId, IndexedScryptoValue>)
+        ensures heap_monotone(h, h)
+    {}
+    pub proof fn lemma_monotone_trans(h0: Map<SubstateId, IndexedScryptoValue>, h1: Map<SubstateId, IndexedScryptoValue>, h2: Map<SubstateId, IndexedScryptoValue>)
+        requires heap_monotone(h0, h1), heap_monotone(h1, h2)
+        ensures heap_monotone(h0, h2)
+    {
+        assert forall|id: SubstateId| #[trigger] h0.contains_key(id) implies h2.contains_key(id) && write_allowed(id, h0[id], h2[id]) by {
+            assert(h1.contains_key(id));
+            assert(write_allowed(id, h0[id], h1[id]) && write_allowed(id, h1[id], h2[id]));
+        }
+    }
+    pub proof fn lemma_locked_stays_locked(h0: Map<SubstateId, IndexedScryptoValue>, h1: Map<SubstateId, IndexedScryptoValue>, id: SubstateId)
+        requires heap_monotone(h0, h1), h0.contains_key(id), locked(id, h0[id])
+        ensures h1.contains_key(id), locked(id, h1[id]), same_content(id, h0[id], h1[id])
+    {}
+    /// a history = the sequence of heaps between contracted calls
+    pub open spec fn history(t: Seq<Map<SubstateId, IndexedScryptoValue>>) -> bool {
+        forall|k: int| 0 <= k < t.len() - 1 ==> heap_monotone(#[trigger] t[k], t[k + 1])
+    }
+    pub proof fn lemma_locked_forever(t: Seq<Map<SubstateId, IndexedScryptoValue>>, i: int, j: int, id: SubstateId)
+        requires history(t), 0 <= i <= j < t.len(), t[i].contains_key(id), locked(id, t[i][id])
+        ensures t[j].contains_key(id), locked(id, t[j][id]), same_content(id, t[i][id], t[j][id])
+        decreases j - i
+    {
+        if i < j {
+            lemma_locked_forever(t, i, j - 1, id);
+            assert(heap_monotone(t[j - 1], t[j]));
+        }
+    }
+    /// the sensitive precondition is exactly the step relation: a heap write allowed by `write_allowed` is monotone
+    pub proof fn lemma_allowed_write_is_monotone(h: Map<SubstateId, IndexedScryptoValue>, id: SubstateId, v: IndexedScryptoValue)
+        requires h.contains_key(id), write_allowed(id, h[id], v)
+        ensures heap_monotone(h, h.insert(id, v))
+    {}
+    /// ... and a write that changes or unlocks a locked substate is NOT (the contract is not vacuous)
+    pub proof fn lemma_forbidden_write_is_rejected(id: SubstateId, old_v: IndexedScryptoValue, new_v: IndexedScryptoValue)
+        requires kind(id) is Field, field_of(old_v) matches Some(f) && f.locked(),
+                 field_of(new_v) matches Some(g) && !g.locked(),
+        ensures !write_allowed(id, old_v, new_v)
+    {}
 
     impl<V> Default for KeyValueEntrySubstate<V> {
         /*@fn radix-engine/src/system/system_substates.rs :: impl<V> Default for KeyValueEntrySubstate<V> :: fn default
